@@ -129,7 +129,8 @@ def gen_op(spec, rng, codec, fs, s, m, oid):
     rfull = resolve(m["lro"]["response_type"], pkg)
     mfull = resolve(m["lro"]["metadata_type"], pkg)
     op["initial_done"] = rng.random() < 0.15
-    op["done_at"] = 0.0 if op["initial_done"] else rng.choice([0.2, 0.9, 2.5, 7.0, 30.0, 61.0, 150.0, 420.0])
+    from ..rng import deep
+    op["done_at"] = 0.0 if op["initial_done"] else rng.choice([0.2, 0.9, 2.5, 7.0, 30.0, 61.0, 150.0, 420.0] + ([600.0, 800.0] if deep() else []))
     if rng.random() < 0.3:
         op["final"] = {"error": {"code": rng.choice(engine.ALL_CODES), "message": f"boom-{oid}"}}
     else:
